@@ -44,6 +44,9 @@ func cListZ(xs []int64) string {
 	return sb.String()
 }
 
+// c15Triples marks (by address) an insert request in which every id is named three times
+var c15Triples uuid.UUID
+
 func c15Uuid(r *rand.Rand) uuid.UUID {
 	var u uuid.UUID
 	binary.BigEndian.PutUint64(u[0:8], r.Uint64())
@@ -494,6 +497,12 @@ func c15EndToEnd(rc *runCtx, nseq int, files *c15Files, hist map[string]int, not
 			if dupOf != nil && np == 1 {
 				points[0].Id = *dupOf
 			}
+			if dupOf == &c15Triples {
+				// every id three times: in id order each range of two or more points names an id twice
+				for i := range points {
+					points[i].Id = points[i-i%3].Id
+				}
+			}
 			var firstId uuid.UUID
 			if np > 0 {
 				firstId = points[0].Id
@@ -523,6 +532,9 @@ func c15EndToEnd(rc *runCtx, nseq int, files *c15Files, hist map[string]int, not
 			}
 			term := fmt.Sprintf("CInsert %s %s %s %s %s %s", cZ(before), cZ(int64(np)), cZ(quota), cBool(refused), cZ(after), cZ(failedPoints))
 			files.add(term)
+			if dupOf == &c15Triples {
+				hist[fmt.Sprintf("insert with every id named three times (several refused ranges), failed points=%d", failedPoints)]++
+			}
 			if dupOf != nil && np == 1 {
 				// the id is already stored in the shard this one-point range goes to
 				files.add(fmt.Sprintf("CDupInsert %s %s %s", cZ(before), cZ(after), cZ(failedPoints)))
@@ -596,6 +608,14 @@ func c15EndToEnd(rc *runCtx, nseq int, files *c15Files, hist map[string]int, not
 		// (refused), one that ends at quota-1, then exactly quota, then one more point (refused)
 		if err := insert(0, nil); err != nil {
 			return err
+		}
+		if maxCount == 2 && quota >= 6 {
+			// six points, every id three times, into the empty collection: three fresh shards get the ranges (x,x) (x,y)
+			// (y,y); the first and the last are refused by their shard (an id twice in one batch), so TWO ranges are
+			// reported failed and the total is the two points of the middle range
+			if err := insert(6, &c15Triples); err != nil {
+				return err
+			}
 		}
 		if dupStep := maxCount >= 2 && quota >= 2 && seq%2 == 0; dupStep {
 			// small enough to stay in the first shard and leave room there and in the quota
